@@ -401,7 +401,9 @@ func ruleExitSequence(c *Ctx, dv *dev) {
 	// the loop is unrolled up to three times: sequences of length 0..3 with every combination of keys down / not down are
 	// evaluated on the paths (the loop body is the same for every iteration; that it runs over the whole sequence is the
 	// structural check below)
-	paths, err := Enumerate(fn, SymConfig{Prog: c.P, MaxDepth: 1, MaxVisits: 5})
+	// (helpers extracted from the function are part of it; one that walks the sequence by calling itself on the rest is
+	// followed as deep as the longest sequence evaluated needs)
+	paths, err := Enumerate(fn, SymConfig{Prog: c.P, MaxDepth: 6, MaxVisits: 5, MaxRecursion: 4, OnlyInline: dv.withHelpers(map[*ssa.Function]bool{})})
 	if !c.Require(err == nil, "R14.2", "device.checkExitSequence", fmt.Sprint(err)) {
 		return
 	}
@@ -455,20 +457,31 @@ func ruleExitSequence(c *Ctx, dv *dev) {
 				ok := true
 				t.Walk(func(x *Term) bool {
 					switch {
-					case x.Op == "len" && strings.HasSuffix(x.Args[0].String(), ".ExitSequence"):
-						env[x.String()] = int64(L)
+					case x.Op == "len" && isSeqView(x.Args[0]):
+						off, _ := seqOffset(x.Args[0])
+						if off > int64(L) {
+							outOfRange, ok = true, false // the sequence sliced beyond its end
+							return false
+						}
+						env[x.String()] = int64(L) - off
 						return false
 					case (x.Op == "lookupok" || x.Op == "lookup") && dv.isFieldLoad(x.Args[0], "keyTracker"):
 						k := x.Args[1].StripConv()
-						if !(k.Op == "load" && k.Args[0].Op == "indexaddr" && strings.HasSuffix(k.Args[0].Args[0].String(), ".ExitSequence")) {
+						if !(k.Op == "load" && k.Args[0].Op == "indexaddr" && isSeqView(k.Args[0].Args[0])) {
 							ok = false
 							return false
 						}
+						off, _ := seqOffset(k.Args[0].Args[0])
 						idx, okI := eval(k.Args[0].Args[1])
 						if !okI {
 							ok = false
 							return false
 						}
+						if off > int64(L) || idx < 0 {
+							outOfRange, ok = true, false
+							return false
+						}
+						idx += off
 						if idx < 0 || idx >= int64(L) {
 							outOfRange = true
 							ok = false
@@ -618,6 +631,9 @@ func ruleExitSequence(c *Ctx, dv *dev) {
 				}
 			}
 		}
+	}
+	if !okLoop {
+		okLoop = walksByRecursion(c, fn, dv)
 	}
 	c.Check(okLoop, "R14.2", "device.checkExitSequence/loop-covers-sequence", pos, "index loop 0..len(sequence)-1 in steps of 1", "no loop over the whole exit sequence found (index from 0 in steps of 1 up to len)")
 }
@@ -912,4 +928,94 @@ func panicBurstUnrolled(c *Ctx, dv *dev, fn *ssa.Function) (bool, string) {
 		return false, ""
 	}
 	return true, fmt.Sprintf("%d returning path(s), loops unrolled completely: exactly ControlChange(current channel, 123, 0) and Note Off(current channel, n, 0) for n = 0..127, once each", n)
+}
+
+// seqOffset: t is the configured exit sequence or a tail of it (`seq[k:]`, nested): how many leading keys were dropped.
+func seqOffset(t *Term) (int64, bool) {
+	t = t.StripConv()
+	if t.Op == "slice" && len(t.Args) == 4 {
+		for _, hi := range t.Args[2:] {
+			if !(hi.Op == "const" && hi.Aux == "_") {
+				return 0, false
+			}
+		}
+		lo := int64(0)
+		if !(t.Args[1].Op == "const" && t.Args[1].Aux == "_") {
+			k, ok := t.Args[1].IsIntConst()
+			if !ok || k < 0 {
+				return 0, false
+			}
+			lo = k
+		}
+		inner, ok := seqOffset(t.Args[0])
+		return inner + lo, ok
+	}
+	return 0, strings.HasSuffix(t.String(), ".ExitSequence")
+}
+
+func isSeqView(t *Term) bool { _, ok := seqOffset(t); return ok }
+
+// walksByRecursion: the sequence is examined by a helper that looks at the first key of the list it is given and calls
+// itself on the rest (`keys[1:]`) - every key of the sequence is reached, as by a loop from 0 in steps of 1.
+func walksByRecursion(c *Ctx, fn *ssa.Function, dv *dev) bool {
+	for h := range dv.newHelpers() {
+		var list *ssa.Parameter
+		for _, prm := range h.Params {
+			if _, isSlice := prm.Type().Underlying().(*types.Slice); isSlice {
+				if list != nil {
+					list = nil
+					break
+				}
+				list = prm
+			}
+		}
+		if list == nil {
+			continue
+		}
+		recursive, okShape := false, true
+		for _, b := range h.Blocks {
+			for _, in := range b.Instrs {
+				switch x := in.(type) {
+				case *ssa.Call:
+					if x.Call.StaticCallee() != h {
+						continue
+					}
+					recursive = true
+					idx := paramIndex(list)
+					if recv := h.Signature.Recv(); recv == nil && idx >= len(x.Call.Args) {
+						okShape = false
+						continue
+					}
+					sl, isSl := x.Call.Args[idx].(*ssa.Slice)
+					if !isSl || sl.X != ssa.Value(list) || sl.High != nil || sl.Max != nil {
+						okShape = false
+						continue
+					}
+					if k, isK := sl.Low.(*ssa.Const); !isK || k.Int64() != 1 {
+						okShape = false
+					}
+				case *ssa.IndexAddr:
+					if x.X == ssa.Value(list) {
+						if k, isK := x.Index.(*ssa.Const); !isK || k.Int64() != 0 {
+							okShape = false // looks at something else than the first key of what it was given
+						}
+					}
+				}
+			}
+		}
+		if !recursive || !okShape {
+			continue
+		}
+		// the function hands the whole sequence to the helper
+		for _, b := range fn.Blocks {
+			for _, in := range b.Instrs {
+				if call, ok := in.(*ssa.Call); ok && call.Call.StaticCallee() == h {
+					if a := NewFnView(c.P, fn).Term(call.Call.Args[paramIndex(list)]); strings.HasSuffix(a.String(), ".ExitSequence") {
+						return true
+					}
+				}
+			}
+		}
+	}
+	return false
 }
